@@ -315,6 +315,10 @@ func readHTTPRequest(req *http.Request) (*FederationRequest, error) { // nolint:
 		if result.fields.Origin != "" && result.fields.Origin != origin {
 			return nil, fmt.Errorf("gomatrixserverlib: different origins in X-Matrix authorization headers")
 		}
+		if result.fields.Origin != "" && result.fields.Destination != destination {
+			// Several headers (one per signing key) speak about one request.
+			return nil, fmt.Errorf("gomatrixserverlib: different destinations in X-Matrix authorization headers")
+		}
 		result.fields.Origin = origin
 		result.fields.Destination = destination
 		if result.fields.Signatures == nil {
